@@ -1124,7 +1124,7 @@ def translator_validation(harness, runs, seed, n=3, log=print):
     out = dict(points=0, validated=0, mismatches=[], concrete_failures=[])
     rng = np.random.default_rng(seed + 1)
     for r in runs:
-        if not r.obligations:
+        if not r.paths:
             continue
         obls_by_path = {}
         for o in r.obligations:
@@ -1160,6 +1160,13 @@ def translator_validation(harness, runs, seed, n=3, log=print):
             out["points"] += 1
             if q.status == "exception" and Hc.exception is None:
                 out["mismatches"].append((r.case.name, f"path{q.pid}", "symbolic path raises, concrete run does not"))
+            # claims that were concrete facts of the symbolic path (no obligation) must hold in the real run too
+            named = {o.name for o in obls_by_path.get(q.pid, [])}
+            for cname_, cres_ in Hc.results.items():
+                if cres_.get("ok") is False and cname_ not in named:
+                    out["concrete_failures"].append((r.case.name, cname_, dict(vals=None, err=cres_.get("err"), note="a concrete fact of the symbolic path")))
+            if Hc.exception is not None and q.status != "exception":
+                out["mismatches"].append((r.case.name, f"path{q.pid}", f"concrete run raises {type(Hc.exception).__name__}: {Hc.exception}, symbolic path does not"))
             for o in obls_by_path.get(q.pid, []):
                 cres = Hc.results.get(o.name)
                 if cres is None:
